@@ -107,6 +107,27 @@ pub fn run(args: &[String]) -> i32 {
                         r
                     }
                 }
+                "downgrade" => match hs.get_mut(&p) {
+                    None => json!({"ok": false, "err": "NoHandle"}),
+                    Some(m) => res_of(catch_unwind(AssertUnwindSafe(|| m.downgrade_to_shared()))).0,
+                },
+                "wput" => match hs.get_mut(&p) {
+                    // a put whatever the handle's mode: on a read-only handle it upgrades the lock first (up to ~10 s when blocked)
+                    None => json!({"ok": false, "err": "NoHandle"}),
+                    Some(m) => {
+                        nput += 1;
+                        let mut o = PutOptions::default();
+                        o.uri = Some(format!("mv2://t{nput}"));
+                        o.timestamp = Some(nput as i64);
+                        o.extraction_budget_ms = 0;
+                        let body = format!("token{nput} lock engine document");
+                        let r = res_of(catch_unwind(AssertUnwindSafe(|| m.put_bytes_with_options(body.as_bytes(), o)))).0;
+                        if r["ok"] != json!(true) {
+                            nput -= 1;
+                        }
+                        r
+                    }
+                },
                 "close" if !hs.contains_key(&p) => json!({"ok": false, "err": "NoHandle"}),
                 "put" | "commit" | "inplace" | "vacuum" if hs.get(&p).is_some_and(|m| m.is_read_only()) => {
                     // a mutating call on a read-only handle would upgrade its lock (blocking): not part of the schedules
